@@ -104,7 +104,52 @@ func TestC14EncoderRandom(t *testing.T) {
 		if want := wtEncode(m.Bin, pl); !bytes.Equal(got, want) {
 			rt.Fatalf("%v server=%v W=%d: got %d bytes (header % x), want %d bytes (header % x)", m, server, W, len(got), clip(got, 9), len(want), clip(want, 9))
 		}
+		if usePool && rapid.Bool().Draw(rt, "twoConnectionsOnThePool") {
+			// two connections take their write buffers from one pool: first one of them streams a message that
+			// outgrows its buffer, then both have a message open at the same time, written in alternating chunks;
+			// each stream must carry exactly the frames of its own messages
+			pa, pb := newHalfPipe(), newHalfPipe()
+			ca := webtrans.NewConn(nil, &memWTStream{out: pa, in: newHalfPipe()}, server, 0, W, pool, nil, nil)
+			cb := webtrans.NewConn(nil, &memWTStream{out: pb, in: newHalfPipe()}, server, 0, W, pool, nil, nil)
+			big := makePayload(rapid.IntRange(eW+1, 3*eW+10).Draw(rt, "poolBig"), 0x51)
+			if err := wtWrite(ca, pathWriterWrite, true, big, []int{rapid.IntRange(1, eW).Draw(rt, "poolBigChunk")}, false); err != nil {
+				rt.Fatalf("streaming write on the first pooled connection: %v", err)
+			}
+			la, lb := rapid.IntRange(1, 2*eW).Draw(rt, "poolLenA"), rapid.IntRange(1, 2*eW).Draw(rt, "poolLenB")
+			ma, mb := makePayload(la, 0xa1), makePayload(lb, 0xb2)
+			chunk := rapid.IntRange(1, eW).Draw(rt, "poolChunk")
+			wa, err := ca.NextWriter(webtrans.BinaryMessage)
+			if err != nil {
+				rt.Fatalf("NextWriter A: %v", err)
+			}
+			wb, err := cb.NextWriter(webtrans.TextMessage)
+			if err != nil {
+				rt.Fatalf("NextWriter B: %v", err)
+			}
+			ra, rb := ma, mb
+			for len(ra) > 0 || len(rb) > 0 {
+				if n := min(chunk, len(ra)); n > 0 {
+					wa.Write(ra[:n])
+					ra = ra[n:]
+				}
+				if n := min(chunk, len(rb)); n > 0 {
+					wb.Write(rb[:n])
+					rb = rb[n:]
+				}
+			}
+			wa.Close()
+			wb.Close()
+			col.Case(fmt.Sprintf("pool2|%d|%v|%d|%d|%d|%d", W, server, len(big), la, lb, chunk), true,
+				map[string]any{"W": W, "server": server, "streamed": len(big), "lenA": la, "lenB": lb, "chunk": chunk}, "two-connections-sharing-the-pool")
+			if got, want := pa.Drain(), append(wtEncode(true, big), wtEncode(true, ma)...); !bytes.Equal(got, want) {
+				rt.Fatalf("two connections sharing a buffer pool (W=%d, streamed %d, then %d and %d bytes in chunks of %d): first connection emitted %d bytes, want %d (first difference at %d)", W, len(big), la, lb, chunk, len(got), len(want), firstDiff(got, want))
+			}
+			if got, want := pb.Drain(), wtEncode(false, mb); !bytes.Equal(got, want) {
+				rt.Fatalf("two connections sharing a buffer pool (W=%d, streamed %d, then %d and %d bytes in chunks of %d): second connection emitted %d bytes, want %d (first difference at %d)", W, len(big), la, lb, chunk, len(got), len(want), firstDiff(got, want))
+			}
+		}
 	})
+	col.RequireClasses(t, "two-connections-sharing-the-pool", "write-buffer.caller-supplied.smaller-than-configured", "write-buffer.caller-supplied.larger-than-configured")
 }
 
 // Decoder: well-formed streams incl. non-minimal length forms.
@@ -208,4 +253,13 @@ func TestC14Decoder(t *testing.T) {
 		}
 	})
 	col.RequireClasses(t, "nonminimal.form1", "nonminimal.form2", "zero-length", "end-reported-with-last-bytes")
+}
+
+func firstDiff(a, b []byte) int {
+	for i := 0; i < len(a) && i < len(b); i++ {
+		if a[i] != b[i] {
+			return i
+		}
+	}
+	return min(len(a), len(b))
 }
